@@ -13,7 +13,8 @@ import fortran_gen as fg
 ID = 'C07'
 LEAN_MODULE = 'Proofs.C07'
 THEOREMS = ['Fsic.C07.' + n for n in [
-    'fortran_numbering', 'fortran_numbers_distinct', 'fortran_index_rewrite', 'fortran_index_rewrite_cell',
+    'fortran_numbering', 'fortran_numbers_distinct', 'fortran_index_rewrite', 'rewrite_expression_text',
+    'fortran_index_rewrite_cell',
     'kind_safe_agree', 'kind_safe_assign_agree', 'full_agree_false_at_half', 'full_agree_false_at_tenth',
     'evaluate_agree', 'fortran_loop_eq_python_loop', 'fortran_solveT_eq_python_partial',
     'fortran_solveT_false_at_shifted_check', 'fortran_solveT_false_at_max_iter_zero',
